@@ -231,6 +231,9 @@ def _bracket(ctx) -> None:
         f = prog.functions.get(q)
         if f is None or f.name == "__init__":
             continue     # first store of an object under construction: nothing registered yet (C15.b/c)
+        from ..core import dead_private_helper
+        if dead_private_helper(prog, f):
+            continue     # (a private helper nothing in the package mentions: unreachable, its parameters carry nothing)
         swaps = _swap_events(it)
         stores = [(e, X, v) for e, X, v in swaps if v is not None]
         if not stores:
